@@ -531,3 +531,78 @@ class C13:
                     ctx.violate("injected error reported although no Write failed", line[:3000], "no injected error", g)
         for i in range(0, len(lines), max(1, len(lines) // 8)):
             ctx.sample(lines[i][:300] + " -> " + go[i][:100])
+
+
+# ------------------------------------------------------------------------------------------- C15
+
+class C15:
+    prop = "C15"
+    lean_module = "Ogorek.Props.C15"
+    theorems = ["Ogorek.enc_no_panic", "Ogorek.C15_total", "Ogorek.C15_kind", "Ogorek.C15_nil_and_arrays"]
+    trusted_base = TB_COMMON + ["the reflect package as modelled: kinds, Elem of nil pointers/interfaces is the invalid Value, unexported "
+                                "fields are reachable only through their struct (the harness describes each generated value to the model)"]
+    level_text = ("Lean theorems over a reflect-level value universe (every kind, named types, arrays/slices of any element, maps with any key "
+                  "type, structs with exported / unexported / embedded / tagged fields, pointer chains, nil pointers and interfaces): the "
+                  "encoder never reaches a panic outcome — in particular the placeholder for unexported content is never consulted and "
+                  "byte arrays by value are copied (C15_total, by mutual structural induction; enc_no_panic for the plain universe); a value "
+                  "of an unsupported kind is answered with TypeError naming that kind (C15_kind); nil pointers/interfaces encode as None "
+                  "(C15_nil_and_arrays). Tie: types built with reflect.StructOf/ArrayOf/SliceOf/MapOf/PointerTo to depth 4 plus hand-written "
+                  "ones, filled with random data, are encoded by the real package (recovering panics) and described to the model, which "
+                  "must give the same chunks / error kind.")
+    level_note = "trusted: Lean kernel + standard axioms; the reflect-level encoder model; reflect's own behaviour"
+    technique = "Lean 4 proof (mutual structural induction over a reflect-value universe) + differential correspondence on reflect-generated types"
+    rule = ("values of Go types generated with reflect (StructOf with exported / unexported / tagged fields, ArrayOf, SliceOf, MapOf with "
+            "string / int / [2]byte / any keys, PointerTo, interface) over all basic kinds incl. chan, func, complex, uintptr, "
+            "unsafe.Pointer, named string / byte / int types, og-rek's own types, nil pointers and pointer chains, byte arrays by value, "
+            "hand-written structs with embedded and tagged-unexported fields; depth <= 4; zero and random data; x protocols 0..5 x "
+            "StrictUnicode; distinct = distinct (seed, protocol, su)")
+    assumptions = ["acyclic values"]
+
+    def run(self, ctx):
+        rng = ctx.rng
+        n = ctx.scale(6000, 120000)
+        base = ctx.seed * 1000003
+        lines = [f"encr {base + i} {rng.randint(0, 5)} {rng.randint(0, 1)}" for i in range(n)]
+        go = C.run_sharded(C.run_go, lines)
+        mlines = []
+        for line, g in zip(lines, go):
+            f = line.split(" ")
+            desc = g.split(" => ")[0] if " => " in g else "inv"
+            mlines.append(f"encr {f[2]} {f[3]} {desc}")
+        lean = C.run_sharded(C.run_lean, mlines)
+        for line, ml, g, l in zip(lines, mlines, go, lean):
+            ctx.evaluations += 1
+            ctx.nontrivial(line)
+            if g.startswith("HARNESS-PANIC"):
+                ctx.count("harness:generator-failed")
+                continue
+            if " => " not in g:
+                ctx.violate("harness failure / crash while encoding a generated value", line, "an outcome", g[:300])
+                continue
+            desc, res = g.split(" => ", 1)
+            multi = "rmap(" in desc or "=" in desc      # map iteration / tag-map iteration order is arbitrary
+            gi = res
+            if res.startswith("ERR "):
+                gi = res + " x"            # the model prints the number of chunks written; not compared
+            ctx.tie(ml[:3000], _encr_norm(gi), _encr_norm(l), project=enc_project if multi else None)
+            ctx.count("outcome:" + " ".join(res.split(" ")[:2])[:40] if not res.startswith("OK") else "outcome:OK")
+            for kind in ("uns:", "st(", "rmap(", "barr:", "ptr(", "inv", "seq(", "tup(", "zero"):
+                if kind in desc:
+                    ctx.count("has:" + kind)
+            if res.startswith("PANIC"):
+                ctx.violate("Encode panicked on a generated value", line + "   value: " + desc[:1500], "nil or an error", res[:300])
+            if res.startswith("ERR typeError:"):
+                k = res.split(":", 1)[1]
+                if f"uns:{k}" not in desc:
+                    ctx.violate("TypeError names a kind that does not occur in the value", line + "   value: " + desc[:1500], "a kind present in the value", res)
+            if res.startswith("ERR other"):
+                ctx.violate("Encode returned an undocumented error for a generated value", line + "   value: " + desc[:1500], "nil, TypeError or a documented limitation", res)
+        for i in range(0, len(lines), max(1, len(lines) // 8)):
+            ctx.sample(lines[i] + " -> " + go[i][:300])
+
+
+def _encr_norm(ans):
+    f = ans.split(" ")
+    if f[0] == "ERR":
+        return " ".join(f[:2])
+    return ans
